@@ -23,7 +23,7 @@ ASSUMPTIONS = ["legality predicate written from Rec. 3.11 over the generator's o
 
 def budget(tier):
     if tier == "thorough":
-        return {"examples": 10000, "min_nontrivial": 2000}
+        return {"examples": 3000, "min_nontrivial": 2000}
     return {"examples": 300, "min_nontrivial": 200}
 
 
